@@ -201,7 +201,8 @@ func (i *interpreter) mapRange(m *omap) iter {
 	ps := i.ps
 	if ps.forcedPerm >= 0 && n >= 2 {
 		// harness-controlled order (site lemmas): permutation number forcedPerm
-		// of the insertion order; beyond 3 entries: 0 identity, 1 reverse, else rotate
+		// of the insertion order (all 2 / 6 / 24 for 2 / 3 / 4 entries);
+		// beyond 4 entries: 0 identity, 1 reverse, else rotate
 		switch {
 		case n == 2:
 			if ps.forcedPerm%2 == 1 {
@@ -209,6 +210,8 @@ func (i *interpreter) mapRange(m *omap) iter {
 			}
 		case n == 3:
 			it.order = perms3[ps.forcedPerm%6]
+		case n == 4:
+			it.order = nthPerm(4, (ps.forcedPerm*7)%24) // *7: the first six already differ in every position
 		default:
 			switch ps.forcedPerm % 3 {
 			case 1:
@@ -263,4 +266,27 @@ func (i *interpreter) mapRange(m *omap) iter {
 		}
 	}
 	return it
+}
+
+// nthPerm: the k-th permutation of 0..n-1 in lexicographic order (factorial number system).
+func nthPerm(n, k int) []int {
+	pool := make([]int, n)
+	for i := range pool {
+		pool[i] = i
+	}
+	fact := 1
+	for i := 2; i < n; i++ {
+		fact *= i
+	}
+	var out []int
+	for i := n - 1; i >= 0; i-- {
+		j := k / fact
+		k %= fact
+		out = append(out, pool[j])
+		pool = append(pool[:j], pool[j+1:]...)
+		if i > 0 {
+			fact /= i
+		}
+	}
+	return out
 }
